@@ -246,8 +246,12 @@ def check(run, mod, args):
 		(VERIF / 'contracts' / 'OBLIGATIONS.lock').write_text(json.dumps(lk, indent=0, sort_keys=True))
 	write_evidence(run, mod, args, results, unsupported, bounded, eng=eng, missing=missing)
 	# ---- report
+	seen_known = set()
 	for k, name in run.known_hits:
-		print(f'KNOWN-FINDING: property={pid} {k.get("what", name)}')
+		line = f'KNOWN-FINDING: property={pid} {k.get("what", name)}'
+		if line not in seen_known:
+			seen_known.add(line)
+			print(line)
 	for name, path, suffix in run.violations:
 		print(f'  failed obligation: {name}')
 	if run.violations:
